@@ -301,6 +301,15 @@ static void pg_ctl_stmt (pgen_t *g) {
     }
     for (int k = 0; k < cf->nres; k++) if (cf->rtype[k] == MIR_T_D) n->res_d = (int) vp_below (&g->r, PG_ND); else n->res_i = (int) vp_below (&g->r, PG_GEN);
     p->n_calls++; if (n->variant == 1) p->n_inline_calls++;
+    if (vp_chance (&g->r, 20)) { /* the call is the first insn after a branch that is always taken: once the optimiser has folded the branch, the
+                                    call starts a block that no label introduces any more */
+      node_t *gd = pg_new (N_IF);
+      if (gd) {
+        pg_emit (pg_op (MIR_MOV, pg_reg (V_I, PG_NI - 2), pg_imm_i (1), pg_imm_i (1))); gd->code = MIR_BT; gd->a = pg_reg (V_I, PG_NI - 2); gd->b = gd->a; pg_emit (gd);
+        node_t **save = pg_tail; pg_tail = &gd->body[0]; pg_emit (n); pg_tail = save;
+        return;
+      }
+    }
     pg_emit (n);
   } else if (w < 68) { /* external logging call */
     node_t *n = pg_new (N_EXT); if (!n) return;
@@ -314,6 +323,14 @@ static void pg_ctl_stmt (pgen_t *g) {
     int sgn = n->code == MIR_MULO || n->code == MIR_MULOS, uns = n->code == MIR_UMULO || n->code == MIR_UMULOS;
     n->n = sgn ? (int) vp_below (&g->r, 2) : uns ? 2 + (int) vp_below (&g->r, 2) : (int) vp_below (&g->r, 4);
     n->d = pg_reg (V_I, (int) vp_below (&g->r, PG_GEN)); n->a = vp_chance (&g->r, 15) ? pg_imm_i (pg_int (g)) : pg_rnd_reg (g, V_I); n->b = vp_chance (&g->r, 60) ? pg_rnd_reg (g, V_I) : pg_imm_i (pg_int (g));
+    if (vp_chance (&g->r, 12)) { /* both operands constant: the insn can be folded, its flag can not be forgotten - half of the time with a zero result and overflow */
+      n->a = pg_imm_i (pg_int (g)); n->b = pg_imm_i (pg_int (g));
+      if (vp_chance (&g->r, 50)) {
+        int is32 = sem_is32 (n->code), mul = n->code == MIR_MULO || n->code == MIR_MULOS || n->code == MIR_UMULO || n->code == MIR_UMULOS, sub = n->code == MIR_SUBO || n->code == MIR_SUBOS;
+        int64_t x = mul ? (is32 ? 65536 : 4294967296LL) : is32 ? -2147483648LL : (-9223372036854775807LL - 1);
+        n->a = pg_imm_i (x); n->b = pg_imm_i (sub && !mul ? -x : x); /* 2^k * 2^k, MIN + MIN: the result wraps to zero (MIN - -MIN as well for 32 bits; for 64 bits -MIN is MIN: result 0, no overflow) */
+      }
+    }
     n->variant = !sem_is32 (n->code) && vp_chance (&g->r, 40); /* a register move between the insn and the branch */
     p->n_ovf++;
     pg_emit (n);
